@@ -2355,6 +2355,16 @@ func (f *formatter) importHasComment(importNode *ast.ImportNode) bool {
 		return false
 	}
 
+	if compoundStringLiteralNode, ok := importNode.Name.(*ast.CompoundStringLiteralNode); ok {
+		// The file name is made of several string literals: there may
+		// be comments between them.
+		for _, child := range compoundStringLiteralNode.Children() {
+			if f.nodeHasComment(child) {
+				return true
+			}
+		}
+	}
+
 	return f.nodeHasComment(importNode.Keyword) ||
 		f.nodeHasComment(importNode.Name) ||
 		f.nodeHasComment(importNode.Semicolon) ||
